@@ -77,7 +77,7 @@ class Script:
                 toks.append('n %d %d' % (a['v'], self.iface(a.get('iface'))))
             elif k == 'a':
                 raw = b''.join(int(x).to_bytes(4, 'little', signed=True) for x in a['data']) + bytes(a.get('extra_bytes', 0))
-                toks.append('a %d %s' % (len(raw), raw.hex() or '-'))
+                toks.append('a %d %s' % (len(raw), raw.hex() or ('0' if a.get('null_data') else '-')))
         self.lines.append('E %d %d %s %d %d %d %s %s %d %s' % (conn, thread, 's' if sending else 'r', func, ii, oid, hexs(name), hexs(sig), len(args), ' '.join(toks)))
         self.nevents += 1
         return self.nevents
